@@ -63,7 +63,7 @@ impl Prop for Repair {
         "fault_enumeration"
     }
     fn rule(&self) -> String {
-        let common = "run = one seeded valid writer history (as C01, with flushes, block-lookalike content on some runs) written to the simulated sink; crash fault = the sink dies after n accepted bytes, i.e. the stored image is the first n bytes. On s0/s1 images up to 2600 bytes EVERY n in 0..=len is taken (exhaustive in the crash point for the workloads visited); on larger images windows of +-20 bytes around every structural anchor of the layout map (header end, every chunk payload/tag edge, every compressed-block edge, every file-layer block, end marker, index) plus a seeded sample; the last 24 (thorough: 240) runs use production constants and one content block longer than the 8 MiB repair copy buffer, and SEARCH the crash point (bisection on the recovered length) at which the bytes recovered from that block end exactly on the buffer edge, then judge the 7 cuts around it. Each cut image is repaired in authenticated and unauthenticated mode through the simulated source with a step budget, and the produced archive is read back with the normal reader. evaluations = repairs judged; distinct_nontrivial = distinct (variant, layers, mode, region class of the cut, anchor?, stop status, unfinished?) signatures.";
+        let common = "run = one seeded valid writer history (as C01, with flushes, block-lookalike content on some runs, 65..200 files with long-lived open ones on one run in 20, 17..1000 recipients on one encrypted run in 20) written to the simulated sink; crash fault = the sink dies after n accepted bytes, i.e. the stored image is the first n bytes. On s0/s1 images up to 2600 bytes EVERY n in 0..=len is taken (exhaustive in the crash point for the workloads visited); on larger images windows of +-20 bytes around every structural anchor of the layout map (header end, every chunk payload/tag edge, every compressed-block edge, every file-layer block, end marker, index) plus a seeded sample; the first 24 (thorough: 240) runs use production constants and one content block longer than the 8 MiB repair copy buffer, and SEARCH the crash point (bisection on the recovered length) at which the bytes recovered from that block end exactly on the buffer edge, then judge the 7 cuts around it. Each cut image is repaired in authenticated and unauthenticated mode through the simulated source with a step budget, and the produced archive is read back with the normal reader. evaluations = repairs judged; distinct_nontrivial = distinct (variant, layers, mode, region class of the cut, anchor?, stop status, unfinished?) signatures.";
         if self.id == "C02" {
             format!("{common} Clauses: no panic/budget overrun; for n >= header length from_config and convert_to_archive return Ok; repaired archive opens and reads back with consistent size/hash; names subset of original; every recovered file is a prefix of the original; files not reported unfinished are complete; EndOfOriginalArchiveData only if everything was recovered.")
         } else {
@@ -104,10 +104,10 @@ impl Prop for Repair {
             Tier::Quick => 24,
             Tier::Thorough => 240,
         };
-        if run + edge_runs >= self.runs(tier) {
+        if run < edge_runs {
             // production constants, one content block LONGER than the repair copy buffer (8 MiB): the crash point is
             // searched (exec) so that the bytes recovered from that block stop exactly at the buffer's edge
-            let k = run + edge_runs - self.runs(tier);
+            let k = run;
             let variant = if tier == Tier::Thorough && k % 3 == 2 { "prod" } else { "prodv" };
             let vc = consts_of(variant);
             let cache = vc.model_consts().repair_cache;
@@ -173,6 +173,15 @@ impl Prop for Repair {
             }
             ops.push(WOp::Finalize);
         }
+        if !big && rng.chance(1, 20) {
+            // many files, a few of them open across dozens of others
+            let n = *rng.pick(&[65usize, 70, 129, 200]);
+            let ll = rng.range(1, 3) as usize;
+            ops = gen_many_files(&mut rng, n, ll, 6);
+        }
+        let usual = cfg.recipients;
+        maybe_many_recipients(&mut rng, &mut cfg, 20);
+        let crowded = cfg.recipients != usual;
         if !big && !cfg.comp() && rng.chance(1, 6) {
             // adversarial block-lookalike content: a well-formed FileStart("intruder")... sequence planted in a
             // file's content at chunk-aligned stream offsets (36 = FileStart(17+2) + content header 17)
@@ -182,6 +191,13 @@ impl Prop for Repair {
             ops.insert(0, WOp::Add { name: Name::lit("lk"), data: Data::Look { n, first: (c.chunk - 36 % c.chunk) % c.chunk, period, seed: rng.u64() }, src: Src::exact() });
         }
         let mut case = Case::new(self.id, cfg, ops);
+        if crowded {
+            // every repair walks the key list: fewer cuts (header end, first anchors, the end, a sample)
+            case.params.insert("full_sweep_limit".into(), 0);
+            case.params.insert("max_anchors".into(), 8);
+            case.params.insert("samples".into(), 12);
+            case.params.insert("window".into(), 6);
+        }
         if big {
             case.params.insert("max_anchors".into(), 12);
             case.params.insert("samples".into(), 10);
@@ -265,6 +281,23 @@ impl Prop for Repair {
                 ctx.eval();
                 let region = lay.as_ref().map(|l| l.class_at(n, len)).unwrap_or("?");
                 let anchor = lay.as_ref().is_some_and(|l| l.is_anchor(n));
+                if !is02 && n == len {
+                    // C05, undamaged archive: any way of not getting to a read-back result is incompleteness
+                    let why = if let Some(p) = &out.panic {
+                        Some(format!("repair panicked: {p}"))
+                    } else if out.src.budget_exhausted {
+                        Some("repair exceeded its step budget".to_string())
+                    } else if let Err(e) = &out.init {
+                        Some(format!("from_config failed: {e}"))
+                    } else if !matches!(&out.convert, Some(Ok(_))) {
+                        Some(format!("convert_to_archive -> {:?}", out.convert))
+                    } else {
+                        None
+                    };
+                    if let Some(why) = why {
+                        v.push(Violation::new("intact-incomplete", format!("{}|{cls}", if case.cfg.comp() { "comp" } else { "nocomp" }), format!("undamaged archive ({} bytes, {}, {} recipients): nothing recovered: {why}", len, case.cfg.layer_name(), case.cfg.recipients)).with_fault(fault.clone()));
+                    }
+                }
                 if let Some(p) = &out.panic {
                     if is02 {
                         v.push(Violation::new("repair-panic", panic_class(p), format!("cut at {n}/{len} ({region}), auth={auth}: panic {p}")).with_fault(fault));
@@ -300,6 +333,9 @@ impl Prop for Repair {
                 let rec = match read_all(s, &Rc::new(out.out_image.clone()), &plain_rcfg) {
                     Ok(m) => m,
                     Err(e) => {
+                        if !is02 && n == len {
+                            v.push(Violation::new("intact-incomplete", format!("{}|{cls}", if case.cfg.comp() { "comp" } else { "nocomp" }), format!("undamaged archive ({len} bytes): the repaired archive does not read back: {e}")).with_fault(fault.clone()));
+                        }
                         if is02 {
                             v.push(Violation::new("repaired-unreadable", cls.clone(), format!("cut at {n}/{len}: repaired archive does not read back: {e}")).with_fault(fault));
                         }
